@@ -223,7 +223,12 @@ def c01(tier):
     rep = Report("C01", tier)
     wd = vlib.workdir("C01", tier)
     vlib.build_harness()
-    mc_writer(rep, wd, "quick")
+    # model level: writer model composed with the reader model (RoundTrip.tla) over every order of writer calls
+    cfg = "MC_RoundTrip.cfg" if tier == "thorough" else "MC_RoundTrip_small.cfg"
+    r = vlib.tlc_mc("RoundTrip.tla", cfg, wd, timeout=1800, tag="mc-roundtrip")
+    rep.add_mc(r, cfg)
+    if r["error"]:
+        rep.spec_violation(r, cfg)
     sd = vlib.seed()
     n = 400 if tier == "quick" else 4000
     g = gen_writer.Gen(sd * 104729 + 1, tier)
